@@ -137,8 +137,10 @@ def work(idx, chunk, seed, budget):
                                "the base unit of this dimensionality is not listed")
                 ok = False
             # each under its own category
+            short_of = {v: k for k, v in reg.long_names.items()}
             for cat, n in listed:
-                cid = reg.categories.get(n)
+                # a base unit is listed by its long name; its category was recorded under the name it is defined with
+                cid = reg.categories.get(n) if n in reg.categories else reg.categories.get(short_of.get(n, n))
                 want = reg.category_names.get(cid) if cid is not None else None
                 if cat != want:
                     part.violation({"kind": "unit_under_wrong_category"},
